@@ -1,11 +1,17 @@
 //! C03 — filter chains and error fan-out: scripted `Filter`s and `Append`s that write every call into
 //! one shared event log, the real `ThresholdFilter`, `Logger::new_with_err_handler`.
-//! case: nodeLevel TAB recordLevel TAB attached TAB appenders   (see lean/Driver/C03.lean)
+//! case: nodeLevel TAB recordLevel TAB attached TAB appenders [TAB path]   (see lean/Driver/C03.lean)
+//! Filters: A N R = scripted answers; T<k> = the real `ThresholdFilter` inside a wrapper that records
+//! the consultation; t<k> = the real `ThresholdFilter` object itself, bare (its consultation is not
+//! observable). path: `builder` (default) = `Appender::builder()`; `config-yaml` = the same chain
+//! rendered as a YAML file under $VERIF_SCRATCH and loaded with `load_config_file`; `config-json` =
+//! rendered as JSON, parsed into `RawConfig`, then `appenders_lossy` + `Config::builder()…build_lossy`
+//! exactly as `config::file::deserialize` does. The scripted kinds are registered in `Deserializers`.
 use crate::proto::*;
 use crate::rng::Rng;
 use log::{Level, LevelFilter, Log, Record};
 use log4rs::append::Append;
-use log4rs::config::{Appender, Config, Root};
+use log4rs::config::{load_config_file, Appender, Config, Deserialize, Deserializers, RawConfig, Root};
 use log4rs::filter::threshold::ThresholdFilter;
 use log4rs::filter::{Filter, Response};
 use std::sync::{Arc, Mutex};
@@ -18,6 +24,7 @@ enum Script {
     Neutral,
     Reject,
     Threshold(u64),
+    Bare(u64),
 }
 
 #[derive(Debug)]
@@ -35,7 +42,7 @@ impl Filter for ScriptedFilter {
             Script::Accept => Response::Accept,
             Script::Neutral => Response::Neutral,
             Script::Reject => Response::Reject,
-            Script::Threshold(_) => unreachable!(),
+            Script::Threshold(_) | Script::Bare(_) => unreachable!(),
         }
     }
 }
@@ -104,19 +111,195 @@ fn dec_filter(s: &str) -> Option<Script> {
         "N" => Script::Neutral,
         "R" => Script::Reject,
         _ => {
-            let k: u64 = s.strip_prefix('T')?.parse().ok()?;
-            level_filter(k)?;
-            Script::Threshold(k)
+            if let Some(k) = s.strip_prefix('T') {
+                let k: u64 = k.parse().ok()?;
+                level_filter(k)?;
+                Script::Threshold(k)
+            } else {
+                let k: u64 = s.strip_prefix('t')?.parse().ok()?;
+                level_filter(k)?;
+                Script::Bare(k)
+            }
         }
     })
 }
 
+#[derive(Clone, Copy, PartialEq)]
+enum Path {
+    Builder,
+    ConfigYaml,
+    ConfigJson,
+}
+
+fn boxed_filter(app: usize, idx: usize, f: Script, log: &EventLog) -> Box<dyn Filter> {
+    match f {
+        Script::Threshold(k) => Box::new(CountingThreshold {
+            app,
+            idx,
+            inner: ThresholdFilter::new(level_filter(k).unwrap()),
+            log: log.clone(),
+        }),
+        Script::Bare(k) => Box::new(ThresholdFilter::new(level_filter(k).unwrap())),
+        other => Box::new(ScriptedFilter { app, idx, answer: other, log: log.clone() }),
+    }
+}
+
+/// path `builder`: the chain is attached filter by filter through `Appender::builder()`
+fn config_via_builder(table: &[(Vec<Script>, bool)], attached: &[usize], node_level: LevelFilter, ev: &EventLog) -> Config {
+    let mut b = Config::builder();
+    for (i, (chain, fails)) in table.iter().enumerate() {
+        let mut ab = Appender::builder();
+        for (j, f) in chain.iter().enumerate() {
+            ab = ab.filter(boxed_filter(i, j, *f, ev));
+        }
+        b = b.appender(ab.build(i.to_string(), Box::new(ScriptedAppend { app: i, fails: *fails, log: ev.clone() })));
+    }
+    let root = Root::builder().appenders(attached.iter().map(|i| i.to_string())).build(node_level);
+    b.build(root).expect("config of the case is well-formed")
+}
+
+// ---- the scripted kinds as configuration-file components --------------------------------------
+
+#[derive(serde::Deserialize)]
+struct ScriptedFilterCfg {
+    app: usize,
+    idx: usize,
+    answer: String,
+}
+
+struct ScriptedFilterDe(EventLog);
+
+impl Deserialize for ScriptedFilterDe {
+    type Trait = dyn Filter;
+    type Config = ScriptedFilterCfg;
+    fn deserialize(&self, c: ScriptedFilterCfg, _: &Deserializers) -> anyhow::Result<Box<dyn Filter>> {
+        let answer = match c.answer.as_str() {
+            "A" => Script::Accept,
+            "N" => Script::Neutral,
+            "R" => Script::Reject,
+            other => anyhow::bail!("unknown scripted answer {}", other),
+        };
+        Ok(Box::new(ScriptedFilter { app: c.app, idx: c.idx, answer, log: self.0.clone() }))
+    }
+}
+
+#[derive(serde::Deserialize)]
+struct CountedThresholdCfg {
+    app: usize,
+    idx: usize,
+    level: u64,
+}
+
+struct CountedThresholdDe(EventLog);
+
+impl Deserialize for CountedThresholdDe {
+    type Trait = dyn Filter;
+    type Config = CountedThresholdCfg;
+    fn deserialize(&self, c: CountedThresholdCfg, _: &Deserializers) -> anyhow::Result<Box<dyn Filter>> {
+        let level = level_filter(c.level).ok_or_else(|| anyhow::anyhow!("level"))?;
+        Ok(Box::new(CountingThreshold { app: c.app, idx: c.idx, inner: ThresholdFilter::new(level), log: self.0.clone() }))
+    }
+}
+
+#[derive(serde::Deserialize)]
+struct ScriptedAppendCfg {
+    app: usize,
+    fails: bool,
+}
+
+struct ScriptedAppendDe(EventLog);
+
+impl Deserialize for ScriptedAppendDe {
+    type Trait = dyn Append;
+    type Config = ScriptedAppendCfg;
+    fn deserialize(&self, c: ScriptedAppendCfg, _: &Deserializers) -> anyhow::Result<Box<dyn Append>> {
+        Ok(Box::new(ScriptedAppend { app: c.app, fails: c.fails, log: self.0.clone() }))
+    }
+}
+
+fn level_word(k: u64) -> &'static str {
+    ["off", "error", "warn", "info", "debug", "trace"][k as usize]
+}
+
+/// the case as a configuration document; every chain in declaration order
+fn document(table: &[(Vec<Script>, bool)], attached: &[usize], node_level: u64) -> serde_json::Value {
+    use serde_json::json;
+    let mut appenders = serde_json::Map::new();
+    for (i, (chain, fails)) in table.iter().enumerate() {
+        let filters: Vec<serde_json::Value> = chain
+            .iter()
+            .enumerate()
+            .map(|(j, f)| match f {
+                Script::Accept => json!({"kind": "scripted", "app": i, "idx": j, "answer": "A"}),
+                Script::Neutral => json!({"kind": "scripted", "app": i, "idx": j, "answer": "N"}),
+                Script::Reject => json!({"kind": "scripted", "app": i, "idx": j, "answer": "R"}),
+                Script::Threshold(k) => json!({"kind": "counted_threshold", "app": i, "idx": j, "level": k}),
+                // the shipped kind, resolved by the default deserializer map
+                Script::Bare(k) => json!({"kind": "threshold", "level": level_word(*k)}),
+            })
+            .collect();
+        let mut entry = serde_json::Map::new();
+        entry.insert("kind".to_owned(), json!("scripted_append"));
+        entry.insert("app".to_owned(), json!(i));
+        entry.insert("fails".to_owned(), json!(fails));
+        // an appender without filters is declared without the key now and then
+        if !(filters.is_empty() && i % 2 == 0) {
+            entry.insert("filters".to_owned(), serde_json::Value::Array(filters));
+        }
+        appenders.insert(i.to_string(), serde_json::Value::Object(entry));
+    }
+    let names: Vec<String> = attached.iter().map(|i| i.to_string()).collect();
+    json!({
+        "appenders": appenders,
+        "root": { "level": level_word(node_level), "appenders": names },
+    })
+}
+
+fn deserializers(ev: &EventLog) -> Deserializers {
+    let mut d = Deserializers::default();
+    d.insert("scripted", ScriptedFilterDe(ev.clone()));
+    d.insert("counted_threshold", CountedThresholdDe(ev.clone()));
+    d.insert("scripted_append", ScriptedAppendDe(ev.clone()));
+    d
+}
+
+static FILE_NO: std::sync::atomic::AtomicUsize = std::sync::atomic::AtomicUsize::new(0);
+
+/// path `config-yaml`: a file on disk through the public `load_config_file`
+fn config_via_yaml_file(doc: &serde_json::Value, ev: &EventLog) -> Result<Config, String> {
+    let dir = std::env::var("VERIF_SCRATCH").unwrap_or_else(|_| std::env::temp_dir().to_string_lossy().into_owned());
+    let n = FILE_NO.fetch_add(1, std::sync::atomic::Ordering::SeqCst);
+    let path = std::path::Path::new(&dir).join(format!("c03_{}_{}.yml", std::process::id(), n));
+    let text = serde_yaml::to_string(doc).map_err(|e| e.to_string())?;
+    std::fs::create_dir_all(&dir).map_err(|e| e.to_string())?;
+    std::fs::write(&path, text).map_err(|e| e.to_string())?;
+    let r = load_config_file(&path, deserializers(ev)).map_err(|e| e.to_string());
+    let _ = std::fs::remove_file(&path);
+    r
+}
+
+/// path `config-json`: `RawConfig` in memory, then the steps of `config::file::deserialize`
+fn config_via_raw_json(doc: &serde_json::Value, ev: &EventLog) -> Result<Config, String> {
+    let text = serde_json::to_string(doc).map_err(|e| e.to_string())?;
+    let raw: RawConfig = serde_json::from_str(&text).map_err(|e| e.to_string())?;
+    let (appenders, errors) = raw.appenders_lossy(&deserializers(ev));
+    if !errors.is_empty() {
+        return Err(format!("{:?}", errors));
+    }
+    let (config, errors) = Config::builder().appenders(appenders).loggers(raw.loggers()).build_lossy(raw.root());
+    if !errors.is_empty() {
+        return Err(format!("{:?}", errors));
+    }
+    Ok(config)
+}
+
 pub fn exec(fields: &[&str]) -> String {
-    if fields.len() != 4 {
+    if fields.len() != 4 && fields.len() != 5 {
         return "bad-case".to_owned();
     }
     let parsed = (|| {
-        let node_level = level_filter(fields[0].parse().ok()?)?;
+        let node_num: u64 = fields[0].parse().ok()?;
+        let node_level = level_filter(node_num)?;
         let rec_level = level(fields[1].parse().ok()?)?;
         let attached: Vec<usize> = dec_list(',', fields[2]).iter().map(|x| x.parse().ok()).collect::<Option<_>>()?;
         let mut table: Vec<(Vec<Script>, bool)> = vec![];
@@ -136,34 +319,26 @@ pub fn exec(fields: &[&str]) -> String {
         if attached.iter().any(|i| *i >= table.len()) {
             return None;
         }
-        Some((node_level, rec_level, attached, table))
+        let path = match fields.get(4).copied() {
+            None | Some("builder") => Path::Builder,
+            Some("config-yaml") => Path::ConfigYaml,
+            Some("config-json") => Path::ConfigJson,
+            _ => return None,
+        };
+        Some((node_num, node_level, rec_level, attached, table, path))
     })();
-    let (node_level, rec_level, attached, table) = match parsed {
+    let (node_num, node_level, rec_level, attached, table, path) = match parsed {
         Some(p) => p,
         None => return "bad-case".to_owned(),
     };
     let events: EventLog = Arc::new(Mutex::new(vec![]));
     let ev = events.clone();
-    let r = guarded(std::panic::AssertUnwindSafe(move || {
-        let mut b = Config::builder();
-        for (i, (chain, fails)) in table.iter().enumerate() {
-            let mut ab = Appender::builder();
-            for (j, f) in chain.iter().enumerate() {
-                let boxed: Box<dyn Filter> = match f {
-                    Script::Threshold(k) => Box::new(CountingThreshold {
-                        app: i,
-                        idx: j,
-                        inner: ThresholdFilter::new(level_filter(*k).unwrap()),
-                        log: ev.clone(),
-                    }),
-                    other => Box::new(ScriptedFilter { app: i, idx: j, answer: *other, log: ev.clone() }),
-                };
-                ab = ab.filter(boxed);
-            }
-            b = b.appender(ab.build(i.to_string(), Box::new(ScriptedAppend { app: i, fails: *fails, log: ev.clone() })));
-        }
-        let root = Root::builder().appenders(attached.iter().map(|i| i.to_string())).build(node_level);
-        let config = b.build(root).expect("config of the case is well-formed");
+    let r = guarded(std::panic::AssertUnwindSafe(move || -> Result<(), String> {
+        let config = match path {
+            Path::Builder => config_via_builder(&table, &attached, node_level, &ev),
+            Path::ConfigYaml => config_via_yaml_file(&document(&table, &attached, node_num), &ev)?,
+            Path::ConfigJson => config_via_raw_json(&document(&table, &attached, node_num), &ev)?,
+        };
         let hlog = ev.clone();
         let logger = log4rs::Logger::new_with_err_handler(
             config,
@@ -174,9 +349,11 @@ pub fn exec(fields: &[&str]) -> String {
             }),
         );
         logger.log(&Record::builder().level(rec_level).target("some::target").args(format_args!("m")).build());
+        Ok(())
     }));
     match r {
-        Ok(()) => enc_list(",", &events.lock().unwrap()),
+        Ok(Ok(())) => enc_list(",", &events.lock().unwrap()),
+        Ok(Err(_)) => "CONFIG-ERROR".to_owned(),
         Err(_) => "PANIC".to_owned(),
     }
 }
@@ -250,7 +427,43 @@ pub fn gen(rng: &mut Rng, n: usize, thorough: bool, emit: &mut dyn FnMut(String)
             emit(format!("{}\t{}\t0,1\tN;fail,A;ok", nl, lvl));
         }
     }
-    // 5. random: long chains, thresholds mixed in, repeated and permuted attachments
+    // 5. the real `ThresholdFilter` object, any number of them at any position, mixed with
+    //    scripted filters, through all three construction paths, all 5 record levels.
+    //    thorough: every chain of length ≤ 3 over {A,N,R,t0..t5}; quick: every chain of length ≤ 2
+    //    over that alphabet and every chain of length 3 over {A,N,R,t1,t3}.
+    let full: Vec<String> = ["A", "N", "R", "t0", "t1", "t2", "t3", "t4", "t5"].iter().map(|s| s.to_string()).collect();
+    let small: Vec<String> = ["A", "N", "R", "t1", "t3"].iter().map(|s| s.to_string()).collect();
+    let mut mixed: Vec<Vec<String>> = vec![vec![]];
+    for a in &full {
+        mixed.push(vec![a.clone()]);
+        for b in &full {
+            mixed.push(vec![a.clone(), b.clone()]);
+        }
+    }
+    let third = if thorough { &full } else { &small };
+    for a in third {
+        for b in third {
+            for c in third {
+                mixed.push(vec![a.clone(), b.clone(), c.clone()]);
+            }
+        }
+    }
+    for (k, chain) in mixed.iter().enumerate() {
+        let cs: Vec<&str> = chain.iter().map(|s| s.as_str()).collect();
+        for lvl in 1..=5u64 {
+            let res = if (k as u64 + lvl) % 3 == 0 { "fail" } else { "ok" };
+            for path in ["builder", "config-yaml", "config-json"] {
+                emit(format!("5\t{}\t0\t{};{}\t{}", lvl, chain_str(&cs), res, path));
+            }
+        }
+    }
+    // 6. the earlier exhaustive scripted chains (length ≤ 4) once more through the file path, with
+    //    a counted threshold between neighbours
+    for c in all_chains(4).iter() {
+        emit(format!("5\t3\t0,1,2\tT2|N;ok,{};fail,~;ok\tconfig-yaml", chain_str(c)));
+    }
+    // 7. random: long chains, thresholds (counted and bare) mixed in, repeated and permuted
+    //    attachments, any construction path
     for _ in 0..n {
         let n_apps = rng.range(1, if thorough { 8 } else { 6 }) as usize;
         let mut apps = vec![];
@@ -266,7 +479,7 @@ pub fn gen(rng: &mut Rng, n: usize, thorough: bool, emit: &mut dyn FnMut(String)
                 .map(|_| {
                     if rng.below(10) < neutral_bias {
                         if rng.chance(1, 4) {
-                            format!("T{}", rng.range(0, 5))
+                            format!("{}{}", if rng.chance(1, 2) { "T" } else { "t" }, rng.range(0, 5))
                         } else {
                             "N".to_owned()
                         }
@@ -274,7 +487,7 @@ pub fn gen(rng: &mut Rng, n: usize, thorough: bool, emit: &mut dyn FnMut(String)
                         match rng.below(5) {
                             0..=1 => "A".to_owned(),
                             2..=3 => "R".to_owned(),
-                            _ => format!("T{}", rng.range(0, 5)),
+                            _ => format!("{}{}", if rng.chance(1, 2) { "T" } else { "t" }, rng.range(0, 5)),
                         }
                     }
                 })
@@ -295,7 +508,12 @@ pub fn gen(rng: &mut Rng, n: usize, thorough: bool, emit: &mut dyn FnMut(String)
             }
         };
         let nl = if rng.chance(4, 5) { 5 } else { rng.range(0, 5) };
-        emit(format!("{}\t{}\t{}\t{}", nl, rng.range(1, 5), enc_list(",", &attached), apps.join(",")));
+        let path = match rng.below(4) {
+            0..=1 => "builder",
+            2 => "config-yaml",
+            _ => "config-json",
+        };
+        emit(format!("{}\t{}\t{}\t{}\t{}", nl, rng.range(1, 5), enc_list(",", &attached), apps.join(","), path));
     }
 }
 
